@@ -65,7 +65,9 @@ func runC02(p *core.Prog, r *core.Result) {
 	nDec, nEnc := 0, 0
 	unpicklers := funcsConvertedTo(p, pkgPickle, "UnpicklerFunc")
 	picklers := funcsConvertedTo(p, pkgPickle, "PicklerFunc")
-	decodeOK := func(v ssa.Value) (bool, string) {
+	var decodeOKd func(v ssa.Value, depth int) (bool, string)
+	decodeOK := func(v ssa.Value) (bool, string) { return decodeOKd(v, 0) }
+	decodeOKd = func(v ssa.Value, depth int) (bool, string) {
 		v = core.Unwrap(v)
 		if c, ok := v.(*ssa.Const); ok {
 			if n, ok := c.Type().(*types.Named); ok && n.Obj().Name() == "NoneType" {
@@ -93,6 +95,26 @@ func runC02(p *core.Prog, r *core.Result) {
 		}
 		if core.IsMethod(call, pkgPickle, "Decoder", "Decode") {
 			return true, "Decode"
+		}
+		// an in-package helper every successful return of which yields such a value
+		if h := core.Callee(call); h != nil && h.Blocks != nil && h.Pkg == call.Parent().Pkg && depth < 2 {
+			n := 0
+			for _, ret := range core.ReturnsOf(h) {
+				vals := core.RetVals(ret)
+				if len(vals) == 0 {
+					return false, ""
+				}
+				if core.IsNilConst(vals[0]) {
+					continue // failure return
+				}
+				if ok, _ := decodeOKd(vals[0], depth+1); !ok {
+					return false, ""
+				}
+				n++
+			}
+			if n > 0 {
+				return true, "the decode helper " + fname(h)
+			}
 		}
 		return false, ""
 	}
@@ -403,14 +425,17 @@ func checkStalenessHasReason(p *core.Prog, r *core.Result) {
 		r.Unk("R2.6", "dawn.(*runTarget).Evaluate#deps-accumulator", p.Pos(m.DepsFn.Pos()), "no staleness carrier recognised in the dependency loop")
 		return
 	}
-	reason := func(fs core.FactSet) string {
+	id := func(v ssa.Value) ssa.Value { return v }
+	var reasonD func(fs core.FactSet, arg func(ssa.Value) ssa.Value, depth int) string
+	reason := func(fs core.FactSet) string { return reasonD(fs, id, 0) }
+	reasonD = func(fs core.FactSet, arg func(ssa.Value) ssa.Value, depth int) string {
 		if fs.Find(func(c ssa.Value, v bool) bool {
 			ex, ok := c.(*ssa.Extract)
 			if !ok || ex.Index != 1 || v {
 				return false
 			}
 			lk, ok := ex.Tuple.(*ssa.Lookup)
-			return ok && m.recordedDeps(lk.X)
+			return ok && m.recordedDepsX(lk.X, arg)
 		}) {
 			return "no recorded stamp"
 		}
@@ -429,11 +454,48 @@ func checkStalenessHasReason(p *core.Prog, r *core.Result) {
 					return false
 				}
 				lk, ok := ex.Tuple.(*ssa.Lookup)
-				return ok && m.recordedDeps(lk.X)
+				return ok && m.recordedDepsX(lk.X, arg)
 			}
 			return isCur(b.X) && isPrev(b.Y) || isCur(b.Y) && isPrev(b.X)
 		}) {
 			return "stamp differs from the recorded one"
+		}
+		// a helper predicate every true-returning path of which carries one of the reasons
+		if depth < 2 {
+			for f := range fs {
+				call, ok := f.Cond.(*ssa.Call)
+				if !ok {
+					continue
+				}
+				cs, subst := p.CalleeCases(call, f.Val)
+				if len(cs) == 0 {
+					continue
+				}
+				inner := func(v ssa.Value) ssa.Value {
+					if a, ok := subst[v]; ok {
+						return arg(a)
+					}
+					if al, ok := v.(*ssa.Alloc); ok {
+						for _, ref := range *al.Referrers() {
+							if st, ok := ref.(*ssa.Store); ok && st.Addr == ssa.Value(al) {
+								if a, ok := subst[st.Val]; ok {
+									return arg(a)
+								}
+							}
+						}
+					}
+					return v
+				}
+				all := true
+				for _, c := range cs {
+					if reasonD(c, inner, depth+1) == "" {
+						all = false
+					}
+				}
+				if all {
+					return "one of the three reasons on every path on which " + fname(core.Callee(call)) + " says so"
+				}
+			}
 		}
 		return ""
 	}
